@@ -56,6 +56,16 @@ def graph_violation(model):
             extra = keys - set(obj.param_spaces)
             if extra:
                 bad.append("graph node without ItemSpace: %s%s" % (obj.get_fullname(), sorted(extra, key=repr)))
+    # ... and every held value of a cached cells is a node of the graph
+    todo = list(model.spaces.values())
+    while todo:
+        sp = todo.pop()
+        todo.extend(sp.spaces.values()); todo.extend(sp.itemspaces.values())
+        for c in sp.cells.values():
+            impl = c._impl
+            lost = set(impl.data) - seen.get(id(impl), (None, set()))[1]
+            if lost:
+                bad.append("value without graph node: %s%s" % (c.fullname, sorted(lost, key=repr)))
     return bad
 '''
 
@@ -92,8 +102,8 @@ def obs_expr(spec, j):
     return "val(%s.cells['c%d'], %r)" % (sp, j, (1,) if nd.param else ())
 
 
-def when_tag(nd):
-    f = nd.fail
+def when_tag(nd, f=None):
+    f = f or nd.fail
     if not nd.deps:
         return "fail-in-leaf"
     if f.when == 0:
@@ -154,6 +164,8 @@ class Runner:
     def inject(self, j, fail, mode):
         sp = self.spec
         self.hist.append(("inject", j, fail.key(), mode))
+        if fail.kind == "depth" and sp.limit_small is None:
+            self.set_limit(SMALL)        # (an earlier repair raised the limit)
         if mode == "edit":
             sp.nodes[j].fail = fail
             self.set_formula(j)
@@ -268,6 +280,17 @@ class Runner:
             handled = any(d.handled for d in nd.deps)
             foreign = actual - may
             missing = set() if handled else must - actual
+            # direct predecessors (only where every dependency is a plain cached cells, and none is handled)
+            if not handled and all(sp.nodes[d.d].kind in "SPLDOK" for d in nd.deps):
+                want = {sp.label(d.d) for d in nd.deps}
+                got = {(n.obj.fullname, tuple(n.args)) for n in ns[space].cells["c%d" % j].preds(*key)
+                       if type(n).__name__ == "ItemNode" and n.obj.name not in ("deep", "deepu")}
+                if got != want:
+                    self.fail("chk-preds", "%s: recorded predecessors %r, its formula called %r"
+                              % (sp.label(j), sorted(got), sorted(want)),
+                              "got = {(n.obj.fullname, tuple(n.args)) for n in %s.cells['c%d'].preds(*%r) "
+                              "if n.obj.name not in ('deep', 'deepu')}\n"
+                              "sys.exit(1 if got != %r else 0)" % (space, j, key, want))
             if foreign or missing:
                 self.fail("chk-refs", "%s: references recorded as read are %r; its formula read %r%s"
                           % (sp.label(j), sorted(actual), sorted(must),
@@ -527,7 +550,7 @@ def run_case(res, c):
         if c["warm"] and mode != "defn":
             queries()
         # step 1
-        R.tags |= {when_tag(nodes[p]) if nodes[p].fail else "x"}
+        R.tags.add(when_tag(nodes[p], f1))
         if mode == "defn":
             R.hist.append(("inject", p, f1.key(), "defn"))
         else:
@@ -635,22 +658,28 @@ def part_h(res, tier):
     return True
 
 
-def part_a_sampled(res, tier, budget_frac):
-    """Seeded sampling beyond the exhaustive bound: 5-6 elements, extra exception kinds."""
-    t_end = res.t0 + res.budget_s * budget_frac
-    count = 0
-    import time
-    limit = 150 if tier == "quick" else 6000
-    while count < limit and time.time() < t_end and not res.expired():
+def case_s(res, item):
+    n, deps, p, fkind, seed = item
+    reset()
+    run_case(res, make_case(n, deps, p, fkind, random.Random(seed), extra_kinds=True))
+
+
+def part_a_sampled(res, tier):
+    """Seeded sampling beyond the exhaustive bound: more elements, KeyboardInterrupt as a further kind.
+    The sample is drawn up front from res.rng, so the same seed gives the same cases."""
+    count = 60 if tier == "quick" else 4000
+    items = []
+    for _ in range(count):
         n = res.rng.choice([5, 6] if tier != "quick" else [4, 5])
         deps = [[i for i in range(j) if res.rng.random() < 0.45] for j in range(n)]
-        p = res.rng.randrange(n)
-        fkind = res.rng.choice(MAIN_KINDS + ["kbi"])
-        reset()
-        rnd = random.Random(res.rng.getrandbits(32))
-        run_case(res, make_case(n, deps, p, fkind, rnd, extra_kinds=True))
-        count += 1
-    return count
+        items.append((n, deps, res.rng.randrange(n), res.rng.choice(MAIN_KINDS + ["kbi"]), res.rng.getrandbits(32)))
+    if tier != "quick":
+        return run_parallel(res, case_s, items, chunk=32, reserve=0.05)
+    for it in items:
+        if res.expired():
+            return False
+        case_s(res, it)
+    return True
 
 
 # ====================================================================== part N: allow_none matrix
@@ -969,14 +998,14 @@ def run(res, tier, seed):
         ok &= part_x(res, tier)
         ok &= part_h(res, tier)
         ok &= part_a(res, tier)
-        part_a_sampled(res, tier, 0.9)
+        part_a_sampled(res, tier)
     else:
         ok &= part_n(res, tier)
         ok &= part_r(res, tier)
         ok &= part_x(res, tier)
         ok &= part_h(res, tier)
         ok &= part_a(res, tier)
-        part_a_sampled(res, tier, 0.93)
+        part_a_sampled(res, tier)
     res.exhaustive = bool(ok)
     res.notes.append("not decided here: 'without crashing the interpreter' beyond the probed depths; formulas that "
                      "assign their own value before raising (A-PURE) are not generated")
